@@ -22,6 +22,7 @@ theorem inv1_begin {s s' : State} {a : ActorId} {c : Choice} (h : Inv1 s)
   have h2a := h2 a
   have h5a := h5 a
   have h6a := h6 a
+  simp only [EHold, THold, SHold, BeginWf] at h1 h2 h5 h6 h1a h2a h5a h6a
   unfold stepBegin at hs
   conc_split hs
   all_goals inv1_close h1 h2 h5 h6 a
@@ -34,6 +35,7 @@ theorem inv1_commit {s s' : State} {a : ActorId} {c : Choice} (h : Inv1 s)
   have h2a := h2 a
   have h5a := h5 a
   have h6a := h6 a
+  simp only [EHold, THold, SHold, BeginWf] at h1 h2 h5 h6 h1a h2a h5a h6a
   unfold stepCommit at hs
   conc_split hs
   all_goals inv1_close h1 h2 h5 h6 a
@@ -46,6 +48,7 @@ theorem inv1_abort {s s' : State} {a : ActorId} {c : Choice} (h : Inv1 s)
   have h2a := h2 a
   have h5a := h5 a
   have h6a := h6 a
+  simp only [EHold, THold, SHold, BeginWf] at h1 h2 h5 h6 h1a h2a h5a h6a
   unfold stepAbort at hs
   conc_split hs
   all_goals inv1_close h1 h2 h5 h6 a
@@ -58,6 +61,7 @@ theorem inv1_after {s s' : State} {a : ActorId} {c : Choice} (h : Inv1 s)
   have h2a := h2 a
   have h5a := h5 a
   have h6a := h6 a
+  simp only [EHold, THold, SHold, BeginWf] at h1 h2 h5 h6 h1a h2a h5a h6a
   unfold stepAfter at hs
   conc_split hs
   all_goals inv1_close h1 h2 h5 h6 a
@@ -70,6 +74,7 @@ theorem inv1_use {s s' : State} {a : ActorId} {c : Choice} (h : Inv1 s)
   have h2a := h2 a
   have h5a := h5 a
   have h6a := h6 a
+  simp only [EHold, THold, SHold, BeginWf] at h1 h2 h5 h6 h1a h2a h5a h6a
   unfold stepUse at hs
   conc_split hs
   all_goals inv1_close h1 h2 h5 h6 a
@@ -82,6 +87,7 @@ theorem inv1_sess {s s' : State} {a : ActorId} {c : Choice} (h : Inv1 s)
   have h2a := h2 a
   have h5a := h5 a
   have h6a := h6 a
+  simp only [EHold, THold, SHold, BeginWf] at h1 h2 h5 h6 h1a h2a h5a h6a
   unfold stepSess at hs
   conc_split hs
   all_goals inv1_close h1 h2 h5 h6 a
@@ -94,6 +100,7 @@ theorem inv1_close {s s' : State} {a : ActorId} {c : Choice} (h : Inv1 s)
   have h2a := h2 a
   have h5a := h5 a
   have h6a := h6 a
+  simp only [EHold, THold, SHold, BeginWf] at h1 h2 h5 h6 h1a h2a h5a h6a
   unfold stepClose at hs
   conc_split hs
   all_goals inv1_close h1 h2 h5 h6 a
@@ -106,6 +113,7 @@ theorem inv1_exp {s s' : State} {a : ActorId} {c : Choice} (h : Inv1 s)
   have h2a := h2 a
   have h5a := h5 a
   have h6a := h6 a
+  simp only [EHold, THold, SHold, BeginWf] at h1 h2 h5 h6 h1a h2a h5a h6a
   unfold stepExp at hs
   conc_split hs
   all_goals inv1_close h1 h2 h5 h6 a
@@ -118,6 +126,7 @@ theorem inv1_idle {s s' : State} {a : ActorId} {c : Choice} (h : Inv1 s)
   have h2a := h2 a
   have h5a := h5 a
   have h6a := h6 a
+  simp only [EHold, THold, SHold, BeginWf] at h1 h2 h5 h6 h1a h2a h5a h6a
   unfold stepIdle at hs
   conc_split hs
   all_goals inv1_close h1 h2 h5 h6 a
